@@ -831,6 +831,19 @@ func genC13(seed uint64, tier string) Scenario {
 	for i, n := 0, g.IntN(2); i < n; i++ {
 		life = append(life, RegOp{Op: "reg", Name: newName(), Desc: g.String(20)})
 	}
+	// the empty text is a description too
+	if g.Pct(12) {
+		if nInit > 0 && g.Pct(50) {
+			s.Service.Ifaces[g.IntN(nInit)].Desc = ""
+		} else {
+			for i := range life {
+				if life[i].Op == "reg" {
+					life[i].Desc = ""
+					break
+				}
+			}
+		}
+	}
 	s.Actors = append(s.Actors, life)
 	// the admin actor: registration attempts while serving, shutdowns
 	var admin []RegOp
